@@ -250,6 +250,14 @@ func mutate(file []byte, muts []Mut) []byte {
 	spans := recSpans(file)
 	for _, m := range muts {
 		switch m.Op {
+		case "aswaprefs": // exchange the data span ids of index entries I and J of an archive
+			base := archiveRegion(file, "refs")
+			a, b := base+8*m.I+4, base+8*m.J+4
+			if base >= 0 && a+4 <= len(f) && b+4 <= len(f) && a >= 0 && b >= 0 {
+				for k := 0; k < 4; k++ {
+					f[a+k], f[b+k] = file[b+k], file[a+k]
+				}
+			}
 		case "axor", "aset":
 			base := archiveRegion(file, m.Reg)
 			if base < 0 {
